@@ -387,3 +387,15 @@ def run(ctx):
     check_norm(ctx, prog)
     check_whichfile(ctx, prog)
     check_persist(ctx, prog, defbit)
+    from rules import r4inplace
+    ctx.rule("R4.namelen", "every cached name_len is the length of the string stored as the object's name")
+    ctx.rule("R4.growguard", "data-mode in-place updates are refused by comparing a field the header size function reads with the "
+             "value that replaces it")
+    r4inplace.check_namelen(ctx, prog, "R4.namelen")
+    nid = None
+    for u in prog.units.values():
+        if "NC_ENOTINDEFINE" in u.macros:
+            nid = int(u.macros["NC_ENOTINDEFINE"].strip("() "), 0)
+            break
+    ctx.require(nid is not None, "NC_ENOTINDEFINE not found")
+    r4inplace.check_growguard(ctx, prog, "R4.growguard", nid)
